@@ -14,7 +14,7 @@ def e2e_cfgs(tier):
     if tier == 'thorough':
         c += [Cfg(1, 2, VHQ, 0, e2e=1), Cfg(1, 4, LQ, DP, e2e=1), Cfg(1, 4, HQ, DP, e2e=1), Cfg(2, 1, MQ, DP, e2e=1), Cfg(3, 1, LQ, DP, e2e=1),
               Cfg(3, 2, MQ, DP, e2e=1), Cfg(2, 3, MQ, DP, e2e=1), Cfg(4, 3, LQ, DP, e2e=1), Cfg(3, 4, LQ, DP, e2e=1), Cfg(8, 1, LQ, DP, e2e=1),
-              Cfg(1, 2, HQ, 0, e2e=1), Cfg(1, 2, HQ, 0, e2e=1, env=NOSIMD32), Cfg(1, 2, 3, DP, e2e=1), Cfg(1, 2, 5, 0, e2e=1)]
+              Cfg(1, 2, 3, DP, e2e=1), Cfg(1, 2, 5, 0, e2e=1), Cfg(1, 2, MQ, 0, e2e=1), Cfg(1, 2, MQ, 0, e2e=1, env=NOSIMD32)]   # (float engines at 20 bits: FFT rounding noise exceeds 2^-20 of the L1 budget - not provable, DESIGN I.2)
     return c
 
 
